@@ -82,7 +82,7 @@ func (r *Reader) Read() (*Record, error) {
 	} else {
 		b = b[:len(b)-1]
 	}
-	if b[len(b)-1] == '\r' {
+	if len(b) != 0 && b[len(b)-1] == '\r' {
 		b = b[:len(b)-1]
 	}
 	var rec Record
